@@ -198,6 +198,10 @@ def elem_of(t):
     """element type if t is (a subtype of) Iterable[X], else None"""
     if typing.get_origin(t) is collections.abc.Iterable:
         return typing.get_args(t)[0]
+    o = typing.get_origin(t)
+    if isinstance(o, type) and len(typing.get_args(t)) == 1 and any(c.__name__ == "ObjectStream" for c in o.__mro__):
+        # a registered collection class given its item type (RegColl[Trk]) is a sequence of those items
+        return typing.get_args(t)[0]
     for b in bases_of(t):
         if b is object or typing.get_origin(b) is typing.Generic:
             continue
